@@ -9,7 +9,7 @@ bool prop(Tape &t, Report &R) {
     // literal circuit + nets, default parameters of effort 3, top-level layer
     CircuitSpec s = decodeSpec(t);
     decodeNets(t, s);
-    if (s.nbMovable() == 0) return true;
+    if (s.nbMovable() == 0 || !specInDomain(s)) return true;  // literal specs outside the quantified domain are not judged
     ColoquinteParameters params(3);
     DetailedObserver ob;
     ob.checkWirelength = true;
